@@ -10,8 +10,11 @@ claim("C03",
 claim("C16",
       "Proof that a tier rotates cyclically for ever (sequentially) and that its index stays in range; whole-program "
       "whitelist of writers of the tier index; that an HTTP announce reads at most the configured response size; that "
-      "decoding a compact peer list never indexes out of range and yields one address per six bytes or an error. "
-      "Partial: bencoded reply parsing, UDP transaction matching and cross-goroutine cancellation are outside.",
+      "decoding a compact peer list never indexes out of range and yields one address per six bytes or an error; that a dictionary-model peer list yields only addresses that have "
+      "an IP; that every announce attempt is accounted for: when announce() returns, its outcome was offered to the "
+      "announcer loop in a hand-over select or the announcer's own context is done - an abort caused by another torrent "
+      "that shares the tracker connection is reported as an error and so retried. "
+      "Partial: bencoded reply parsing, UDP transaction matching and the transport's own goroutines are outside.",
       "DESIGN.md §4 C16")
 
 claim("C15",
@@ -54,13 +57,13 @@ claim("C05",
       "Proof of the ordering links that can be stated per function: every data file is opened O_SYNC|O_RDWR (bit-exact), "
       "a piece bit is set only in the handler of a write that returned nil (shared with C01), storage writes happen only "
       "on the piece-writer path; the allocator reports a file that did not exist (HasMissing), which is what makes the "
-      "torrent distrust a stored bitfield. Partial: crash points, bbolt atomicity and kernel durability are assumptions; this family "
+      "torrent distrust a stored bitfield; stop() writes the bitfield to the resume db only when no re-check is pending (the bitfield a Verify() discarded is not written back). Partial: crash points, bbolt atomicity and kernel durability are assumptions; this family "
       "cannot kill a process.",
       "DESIGN.md §4 C05")
 
 claim("C12",
       "Proof of the forced-encryption policy on the accept and dial paths (a successful forced handshake selected RC4 "
-      "and returns the MSE stream; no plaintext write or retry when forced), of the cipher-selection checks, and of the "
+      "and returns the MSE stream; no plaintext write or retry when forced, whatever the enable/disable option says), of the cipher-selection checks, and of the "
       "sync-window arithmetic for every pad length; the handshaker goroutines pass the session's policy flags, the "
       "info-hash and our peer id to Dial/Accept unchanged and report RC4 after a forced handshake. Partial: DH/RC4 key agreement and byte transparency of the stream "
       "are cryptographic two-party properties outside function contracts.",
@@ -84,13 +87,13 @@ claim("C08",
 
 claim("C14",
       "Proof of the port take/release balance of the session (a failed add leaves the free-port set exactly as it was, "
-      "including the deferred release on every error path; a successful add removes exactly the returned port). "
+      "including the deferred release on every error path; a successful add removes exactly the returned port, which lies in the configured range; releasePort adds only ports of the configured range to the pool); the persisted started flag follows Start, Stop and Verify (ghost-tracked resumer write); stop-after options are cleared in memory where they are cleared in the db. "
       "Partial: concurrent adders, restart equivalence through a real database and the resume codec pairing are outside "
       "or not yet under contract (see evidence).",
       "DESIGN.md §4 C14")
 
 claim("C17",
-      "Proof of the guard-before-insert obligations at the sites that open connections (accept and dial caps hold in the state in which a handshaker is created) and of the outstanding-request cap (result never exceeds MaxRequestsOut, whatever a peer advertises); that the address queue counts every insertion and every replacement exactly once towards the pushed source (the step that keeps the per-source counters summing to the queue length). For the resource manager (generic code, verified once on its generic body): an immediate grant is made exactly when the amount fits and leaves 0 <= available <= limit, its assertion cannot fire, the candidate picked for a deferred grant fits into what is available, removing a queued request keeps the others' amounts, and requests and releases are sent with non-negative amounts. Partial: token buckets, RAM reservations across goroutines, the manager's loop as a whole (queued amounts stay non-negative on insertion is not proved) and the agreement between the queue's slice and its external btree are outside (see evidence).",
+      "Proof of the guard-before-insert obligations at the sites that open connections (accept and dial caps hold in the state in which a handshaker is created) and of the outstanding-request cap (result never exceeds MaxRequestsOut, whatever a peer advertises); that the address queue counts every insertion and every replacement exactly once towards the pushed source (the step that keeps the per-source counters summing to the queue length); that the web-seed slot counter is decremented exactly where an open downloader is closed (closeWebseedDownloader's postcondition, and no other decrement in the handlers except after WebseedStopAt reported a close) and incremented only below WebseedMaxDownloads. For the resource manager (generic code, verified once on its generic body): an immediate grant is made exactly when the amount fits and leaves 0 <= available <= limit, its assertion cannot fire, the candidate picked for a deferred grant fits into what is available, removing a queued request keeps the others' amounts, and requests and releases are sent with non-negative amounts. Partial: token buckets, RAM reservations across goroutines, the manager's loop as a whole (queued amounts stay non-negative on insertion is not proved) and the agreement between the queue's slice and its external btree are outside (see evidence).",
       "DESIGN.md §4 C17")
 
 claim("C18",
@@ -105,10 +108,17 @@ claim("C07",
       "DESIGN.md §4 C07")
 
 claim("C04",
-      "Proof of the per-handler safety facts reached so far: the resume bitfield is trusted (pieces marked done without "
-      "verification) only when no file was missing at allocation. Partial: liveness (every command returns, convergence "
-      "with a seed), timing, and the remaining lifecycle invariants of DESIGN.md C04 are not yet under contract; see evidence "
-      "for the exact obligations.",
+      "Proof of per-handler lifecycle facts for every state in which a handler can run: the reported status is exactly the "
+      "decision table over the torrent's fields; the resume bitfield is trusted only when no file was missing at "
+      "allocation; a completed torrent keeps its bitfield and an incomplete one has an open completion channel (no "
+      "double close); stop() leaves no handshaker, no data file, no picker, allocator or verifier and no address "
+      "remembered as connected, and puts the torrent into Stopping; start() never leaves the stop announcer set (a start "
+      "while Stopping takes effect); a verification request ends stopped: a failed re-check is not started over, no "
+      "download is started while a re-check is pending, a request without metadata leaves none pending; stop-after "
+      "options are consumed. Bounded stand-ins (labelled, not counted): an allocator whose result is not received leaves "
+      "no file open (99 cases); closing an incoming handshaker does not wait for the handshake timeout (6 cases). "
+      "Partial: liveness (every command returns, convergence with a seed), timing and cross-goroutine orderings are "
+      "outside function contracts; see evidence for the exact obligations.",
       "DESIGN.md §4 C04")
 
 claim("C02",
